@@ -61,7 +61,7 @@ def make_family(name, reg0, i, limit, mutate=None):
         if hash(tuple(eng.decisions)) % 29 == 0: res["sample"] = {"id": i, "value": canon_sym(r1.f[0])[:200]}
         return res
     def on_panic(eng, reg, msg):
-        return {"outcome": "panic", "violations": [{"what": "example generation panics / does not terminate for id %d: %s" % (i, msg), "case": {"op": "scale_example", "reg": regdsl.encode(reg).hex(), "id": str(i), "seed": "0", "nseeds": "64"}, "kind": "panic"}]}
+        return {"outcome": "panic", "violations": [{"what": "example generation panics / does not terminate for id %d: %s" % (i, msg), "case": {"op": "scale_example", "reg": regdsl.encode(reg).hex(), "id": str(i), "seed": "0", "nseeds": "512"}, "kind": "panic"}]}
     return Family(name, mk, run, target_prefixes=1, on_panic=on_panic, limit=limit, setup=sym)
 
 def exact_family(name, reg0, ids, seeds):
